@@ -690,6 +690,14 @@ def check_heading_offset(ctx, case):
         wrapped = ["# A", "", "```{include} inc.md", f":heading-offset: {k}", "```", "", "# B", "", "tail"]
         plain = ["# A", "", "#" * (1 + k) + " Inner", "", "inner text", "", "#" * (2 + k) + " Deeper", "", "more", "",
                  "# B", "", "tail"]
+        if case.get("nested"):
+            # offsets accumulate: an include with heading-offset inside an included file (94acff7)
+            with open(os.path.join(d, "inc.md"), "w") as f:
+                f.write("# Inner\n\ninner text\n\n```{include} inc2.md\n:heading-offset: 1\n```\n")
+            with open(os.path.join(d, "inc2.md"), "w") as f:
+                f.write("# Deep\n\nmore\n")
+            plain = ["# A", "", "#" * (1 + k) + " Inner", "", "inner text", "", "#" * (2 + k) + " Deep", "", "more", "",
+                     "# B", "", "tail"]
         try:
             dw, _ = parse("\n".join(wrapped) + "\n", source_path=src)
             dp, _ = parse("\n".join(plain) + "\n", source_path=src)
@@ -888,9 +896,10 @@ def search(ctx):
             ctx.count("usability:outside-in")
             check_case(ctx, {"outside_in": True, "wrapper": kind, "what": what})
     for k in (0, 1, 2):
-        ctx.search_cases += 1
-        ctx.count("heading-offset")
-        check_case(ctx, {"heading_offset": True, "k": k})
+        for nested in (False, True):
+            ctx.search_cases += 1
+            ctx.count("heading-offset")
+            check_case(ctx, {"heading_offset": True, "k": k, "nested": nested})
     rng = ctx.rng
     # definitions made inside one nested parse, used inside a later one; fixed minimal cases first
     for own in (False, True):
